@@ -1040,6 +1040,37 @@ func eachFamilyHasItsOwnSettings(c *core.Ctx, rule string) {
 				_, ok = core.Unparen(x.X).(*ast.CompositeLit)
 			case *ast.Ident:
 				ok = x.Name == "nil"
+				// a local that holds a fresh object and is stored into a family field once
+				if o := core.ObjOf(f.Pkg, x); !ok && o != nil {
+					defs := core.DefsOf(f, o)
+					fresh := len(defs) > 0
+					for _, d := range defs {
+						switch y := core.Unparen(d).(type) {
+						case *ast.CallExpr:
+							if !c.P.OwningCall(f, y) {
+								fresh = false
+							}
+						case *ast.UnaryExpr:
+							if _, isLit := core.Unparen(y.X).(*ast.CompositeLit); !isLit {
+								fresh = false
+							}
+						default:
+							fresh = false
+						}
+					}
+					uses := 0
+					ast.Inspect(f.Decl.Body, func(m ast.Node) bool {
+						if as, isAs := m.(*ast.AssignStmt); isAs && len(as.Lhs) == len(as.Rhs) {
+							for i, l := range as.Lhs {
+								if fv := core.FieldOf(f.Pkg, l); fv != nil && (fv == v4 || fv == v6) && core.ObjOf(f.Pkg, as.Rhs[i]) == o {
+									uses++
+								}
+							}
+						}
+						return true
+					})
+					ok = fresh && uses == 1
+				}
 			}
 			c.Check(ok, rule, fmt.Sprintf("%s store to PeerConfig.%s takes a fresh object", f.Name(), which), at.Pos(),
 				"the address family settings stored here are not allocated for this store (a shared object or a parameter): IPv4 and IPv6 can point at one object, so add-path / next-hop options set for one family silently apply to the other")
